@@ -774,7 +774,13 @@ class Sym:
             return ("in", self.canon(l, at, depth + 1), self.canon(r, at, depth + 1), pos != neg)
         if isinstance(op, (ast.Is, ast.IsNot)):
             pos = isinstance(op, ast.Is)
-            a, b = sorted([self.canon(l, at, depth + 1), self.canon(r, at, depth + 1)])
+            pl_, pr_ = self.ev(l, at, depth + 1), self.ev(r, at, depth + 1)
+            for x_, y_ in ((pl_, pr_), (pr_, pl_)):
+                if y_.key() == "None" and x_.key() != "None" or (x_.key() == "None" and y_.key() == "None"):
+                    nt = none_test(x_)
+                    if nt is not None:
+                        return nt if pos != neg else cmp_negate(nt)
+            a, b = sorted([pl_.key(), pr_.key()])
             return ("is", a, b, pos != neg)
         name = type(op).__name__
         pl = self.ev(l, at, depth + 1)
@@ -878,7 +884,41 @@ def ite_atom(c, a: "Poly", b: "Poly") -> "Poly":
         c, a, b = nc, b, a
     if a == b:
         return a
-    return Poly.atom("ite(" + cmp_key(c) + ", " + a.key() + ", " + b.key() + ")")
+    k = "ite(" + cmp_key(c) + ", " + a.key() + ", " + b.key() + ")"
+    ITE_PARTS[k] = (c, a, b)
+    return Poly.atom(k)
+
+
+ITE_PARTS: Dict[str, tuple] = {}
+_NOT_NONE = re.compile(r"^(\(.*,.*\)|\[.*\]|\{.*\}|-?\d[\d./e+-]*|'.*'|\".*\"|fstr\(.*\)|True|False|(int|float|str|list|dict|tuple|set|abs|len|sorted|bool)\(.*\))$", re.S)
+
+
+def none_test(p: "Poly"):
+    """CMP form of `p is None` when it can be read off the value id: None itself, a display / literal / constructor call
+    (never None), or a conditional value whose arms are such (`(a if c else None) is None` is `not c`). Else None."""
+    k = p.key()
+    if k == "None":
+        return ("truthy", "True", True)
+    if k in ITE_PARTS:
+        c, a, b = ITE_PARTS[k]
+        ra, rb = none_test(a), none_test(b)
+        if ra is None or rb is None:
+            return None
+        ta, tb = ra == ("truthy", "True", True), rb == ("truthy", "True", True)
+        fa_, fb_ = ra == ("truthy", "True", False), rb == ("truthy", "True", False)
+        if ta and tb:
+            return ("truthy", "True", True)
+        if fa_ and fb_:
+            return ("truthy", "True", False)
+        if ta and fb_:
+            return c
+        if fa_ and tb:
+            return cmp_negate(c)
+        # nested conditionals
+        return ("or", sorted([("and", sorted([c, ra], key=cmp_key)), ("and", sorted([cmp_negate(c), rb], key=cmp_key))], key=cmp_key))
+    if _NOT_NONE.match(k) and not k.startswith("ite(") and " + " not in k.split("(")[0]:
+        return ("truthy", "True", False)
+    return None
 
 
 def cmp_strip_nan(c):
